@@ -628,7 +628,9 @@ def rodrigues(w, theta=None):
         else:
             return np.eye(3)
     if theta is None:
-        w, theta = base.unitvec_norm(w)
+        # w is known to be non-zero here
+        theta = base.norm(w)
+        w = w / theta
 
     skw = skew(w)
     return np.eye(skw.shape[0]) + math.sin(theta) * skw + (1.0 - math.cos(theta)) * skw @ skw
